@@ -169,6 +169,20 @@ func main() {
 	// constructor histories: the caller's argument slice is written again after construction (a scratch
 	// slice reused for the next group); the first object must keep its solid inside the box it reports
 	n2, n3 = append(n2, history2()...), append(n3, history3()...)
+	witness := map[string]bool{}
+	if !c.Thorough() {
+		// recorded witnesses of the known findings that only the thorough enumeration contains
+		have := map[string]bool{}
+		for _, n := range n3 {
+			have[n.Name] = true
+		}
+		for _, w := range shapes.Witness3("Shell3D[0.25](Transform3D[RotateX(30)](obj.GfBase(1x1)))", "ExtrudeRounded3D[h=1 round=0.5](Transform2D[Rotate(30)](GearRack2D(n=1,m=1,pa=14.5,bl=0,h=0)))") {
+			if !have[w.Name] {
+				n3 = append(n3, w)
+				witness[w.Name] = true // probed on the thorough tier's lattice
+			}
+		}
+	}
 	N2, N3 := vlib.Pick(c, 12, 24), vlib.Pick(c, 5, 10)
 	var mu sync.Mutex
 	var fails []failure
@@ -275,6 +289,9 @@ func main() {
 		}
 		tol := 1e-9 * (1 + bb.Max.Sub(bb.Min).Length())
 		n := N3
+		if witness[nd.Name] {
+			n = 10
+		}
 		if strings.Contains(nd.Name, "ImportSTL") || strings.Contains(nd.Name, "Knurl") || strings.Contains(nd.Name, "DrainCover") {
 			n = 4
 		}
